@@ -142,6 +142,187 @@ pub fn c13dec(args: &[String]) {
         "spec_vs_libzstd": tool, "spec_vs_libzstd_examples": tools, "samples": samples}));
 }
 
+/// c13fse <seed> <quick|thorough> <rows.ndjson> <report.json>
+/// Decoder side, FSE-compressed weight descriptions from an independent encoder: alphabets of 3..256 symbols x code
+/// shapes x (accuracy log, how flat the distribution is); every description of 124..127 bytes (the largest the header
+/// byte can express) and a sample of the shorter ones is wrapped into a frame and decoded by ruzstd and libzstd;
+/// each is also a row for HufRows.tla (the specification's reading of the description gives exactly these weights).
+pub fn c13fse(args: &[String]) {
+    use crate::hufcodec::{encode_stream, fse_description, table_for_data, weight_distribution};
+    quiet_panics();
+    let seed: u64 = args[0].parse().unwrap();
+    let quick = args[1] == "quick";
+    let mut w = std::io::BufWriter::new(std::fs::File::create(&args[2]).unwrap());
+    let mut rng = SmallRng::seed_from_u64(seed ^ 0x13f);
+    let (mut tried, mut n, mut bad, mut tool) = (0u64, 0u64, 0u64, 0u64);
+    let mut sizes = std::collections::BTreeMap::<usize, u64>::new();
+    let mut mism: Vec<Value> = vec![];
+    let mut tools: Vec<Value> = vec![];
+    let mut taken = std::collections::BTreeMap::<usize, u64>::new();
+    let shapes = ["uniform", "geometric", "two_level", "random"];
+    let ms: Vec<usize> = if quick { vec![3, 4, 5, 8, 16, 17, 33, 64, 100, 128, 129, 160, 180, 200, 220, 240, 250, 255, 256] } else { (3..=256).collect() };
+    for &m in &ms {
+        for shape in shapes {
+            // literals with the wanted histogram shape over m symbols
+            let len = 600 + 12 * m;
+            let syms: Vec<u8> = { let mut v: Vec<u8> = (0..=255u8).collect(); v.shuffle(&mut rng); v.truncate(m); if m == 256 { v } else { v.sort(); v } };
+            let data: Vec<u8> = (0..len).map(|i| {
+                if i < m { return syms[i]; }
+                let k = match shape {
+                    "uniform" => rng.gen_range(0..m),
+                    "geometric" => { let mut k = 0; while k + 1 < m && rng.gen_bool(0.6) { k += 1; } k }
+                    "two_level" => if rng.gen_bool(0.8) { rng.gen_range(0..(m / 4).max(1)) } else { rng.gen_range(0..m) },
+                    _ => (rng.gen::<f64>().powi(2) * m as f64) as usize % m,
+                };
+                syms[k]
+            }).collect();
+            let table = match table_for_data(&data) { Some(t) => t, None => continue };
+            let explicit: Vec<u8> = table.weights[..table.weights.len() - 1].to_vec();
+            if explicit.len() < 2 {
+                continue;
+            }
+            for al in [5u8, 6] {
+                for flat in [0u32, 10, 25, 40, 55, 70, 85, 100, 105, 110, 115, 120, 125, 130, 135, 140, 145, 150, 155, 160, 165, 170, 175, 180, 185, 190, 195, 200] {
+                    tried += 1;
+                    let probs = weight_distribution(&explicit, al, flat);
+                    let desc = match fse_description(&explicit, al, &probs) { Some(d) => d, None => continue };
+                    let sz = desc.len() - 1;
+                    *sizes.entry(sz).or_insert(0) += 1;
+                    // all of the largest ones, a sample of the rest
+                    let t = taken.entry(sz).or_insert(0);
+                    let want = if sz >= 124 { *t < 6 } else { *t < 1 || (tried % 37 == 0 && *t < 3) };
+                    if !want {
+                        continue;
+                    }
+                    *t += 1;
+                    n += 1;
+                    let lits = &data[..300.min(data.len())];
+                    let stream = encode_stream(&table, lits);
+                    let mut section = literals_header(2, lits.len(), Some(desc.len() + stream.len()), false, Some(0));
+                    section.extend_from_slice(&desc);
+                    section.extend_from_slice(&stream);
+                    let frame = frame_with_literals(&section);
+                    let (ours, reference) = decode_both(&frame, lits.len());
+                    match &reference {
+                        Ok(r) if r == lits => {}
+                        other => {
+                            tool += 1;
+                            if tools.len() < 5 {
+                                tools.push(json!({"symbols": m, "shape": shape, "al": al, "flat": flat, "size": sz, "libzstd": format!("{:?}", other).chars().take(200).collect::<String>()}));
+                            }
+                            continue;
+                        }
+                    }
+                    match &ours {
+                        Ok(o) if o == lits => {}
+                        other => {
+                            bad += 1;
+                            if mism.len() < 10 {
+                                mism.push(json!({"symbols": m, "shape": shape, "al": al, "flat": flat, "description_bytes": sz,
+                                    "error": format!("a valid FSE-compressed weight description is not decoded to the literals: {:?}", other).chars().take(300).collect::<String>(), "frame_hex": hex(&frame)}));
+                            }
+                        }
+                    }
+                    serde_json::to_writer(&mut w, &json!({"k": "fsedesc", "desc": desc, "explicit": explicit, "al": al})).unwrap();
+                    w.write_all(b"\n").unwrap();
+                }
+            }
+        }
+    }
+    // the largest sizes the header byte can express are rare on the grid: search for them (move probability between
+    // weight values until the description has exactly the wanted size)
+    let mut searched = std::collections::BTreeMap::<usize, u64>::new();
+    for (bi, &m) in [256usize, 230, 200, 170, 140].iter().enumerate() {
+        for shape in ["geometric", "random"] {
+            let len = 600 + 12 * m;
+            let data: Vec<u8> = (0..len).map(|i| {
+                if i < m { return i as u8; }
+                let k = if shape == "geometric" { let mut k = 0; while k + 1 < m && rng.gen_bool(0.6) { k += 1; } k } else { (rng.gen::<f64>().powi(2) * m as f64) as usize % m };
+                k as u8
+            }).collect();
+            let table = match table_for_data(&data) { Some(t) => t, None => continue };
+            let explicit: Vec<u8> = table.weights[..table.weights.len() - 1].to_vec();
+            for target in [127usize, 126, 125, 128] {
+                if quick && bi > 1 && target != 127 {
+                    continue;
+                }
+                let al = 6u8;
+                let size = 1i32 << al;
+                let used: Vec<bool> = { let mut u = vec![false; 12]; for w in &explicit { u[*w as usize] = true; } u };
+                let mut probs = weight_distribution(&explicit, al, 140);
+                let k = probs.len();
+                let mut cur = crate::hufcodec::fse_description_body(&explicit, al, &probs).map(|b| b.len());
+                for _ in 0..4000 {
+                    if cur == Some(target) {
+                        break;
+                    }
+                    let (i, j) = (rng.gen_range(0..k), rng.gen_range(0..k));
+                    if i == j || probs[i] <= if used[i] { 1 } else { 0 } || probs[j] >= size / 2 {
+                        continue;
+                    }
+                    probs[i] -= 1;
+                    probs[j] += 1;
+                    let nsz = crate::hufcodec::fse_description_body(&explicit, al, &probs).map(|b| b.len());
+                    let better = match (cur, nsz) {
+                        (_, None) => false,
+                        (None, Some(_)) => true,
+                        (Some(c), Some(n2)) => (n2 as i64 - target as i64).abs() <= (c as i64 - target as i64).abs(),
+                    };
+                    if better {
+                        cur = nsz;
+                    } else {
+                        probs[i] += 1;
+                        probs[j] -= 1;
+                    }
+                }
+                if cur != Some(target) {
+                    continue;
+                }
+                *searched.entry(target).or_insert(0) += 1;
+                if target >= 128 {
+                    continue; // not expressible: nothing to decode (the search shows the boundary is real)
+                }
+                let desc = fse_description(&explicit, al, &probs).unwrap();
+                *sizes.entry(target).or_insert(0) += 1;
+                n += 1;
+                let lits = &data[..300];
+                let stream = encode_stream(&table, lits);
+                let mut section = literals_header(2, lits.len(), Some(desc.len() + stream.len()), false, Some(0));
+                section.extend_from_slice(&desc);
+                section.extend_from_slice(&stream);
+                let frame = frame_with_literals(&section);
+                let (ours, reference) = decode_both(&frame, lits.len());
+                match &reference {
+                    Ok(r) if r == lits => {}
+                    other => {
+                        tool += 1;
+                        if tools.len() < 5 {
+                            tools.push(json!({"symbols": m, "shape": shape, "size": target, "libzstd": format!("{:?}", other).chars().take(200).collect::<String>()}));
+                        }
+                        continue;
+                    }
+                }
+                match &ours {
+                    Ok(o) if o == lits => {}
+                    other => {
+                        bad += 1;
+                        if mism.len() < 10 {
+                            mism.push(json!({"symbols": m, "shape": shape, "al": al, "description_bytes": target,
+                                "error": format!("a valid FSE-compressed weight description is not decoded to the literals: {:?}", other).chars().take(300).collect::<String>(), "frame_hex": hex(&frame)}));
+                        }
+                    }
+                }
+                serde_json::to_writer(&mut w, &json!({"k": "fsedesc", "desc": desc, "explicit": explicit, "al": al})).unwrap();
+                w.write_all(b"\n").unwrap();
+            }
+        }
+    }
+    w.flush().unwrap();
+    let big: u64 = sizes.iter().filter(|(k, _)| **k >= 124).map(|(_, v)| *v).sum();
+    write_json(&args[3], &json!({"tried": tried, "cases": n, "mismatches": bad, "first": mism, "spec_vs_libzstd": tool, "spec_vs_libzstd_examples": tools,
+        "descriptions_of_124_to_127_bytes": big, "with_127_bytes": sizes.get(&127).cloned().unwrap_or(0), "largest": sizes.keys().max(), "found_by_search": searched}));
+}
+
 /// c13enc <seed> <quick|thorough> <rows.ndjson> <report.json>
 pub fn c13enc(args: &[String]) {
     quiet_panics();
